@@ -8,6 +8,7 @@ import (
 	"regexp"
 	"strconv"
 	"strings"
+	"unicode/utf8"
 )
 
 // ErrDomain marks an evaluation that the documentation does not define (or
@@ -498,7 +499,9 @@ func evalCall(e *Expr, env *Env) (Val, error) {
 		if err := need(1); err != nil {
 			return Val{}, err
 		}
-		if args[0].K != 'T' || !isASCII(args[0].T) {
+		// ASCII letters are mapped; bytes that are no valid UTF-8 are data and
+		// stay as they are; what happens to letters beyond ASCII is not documented
+		if args[0].K != 'T' || !asciiOrInvalid(args[0].T) {
 			return Val{}, dom(name + " of non-ASCII-text")
 		}
 		if name == "upper" {
@@ -778,4 +781,16 @@ func fromJSON(x any) Val {
 		return Val{K: 'J', J: m}
 	}
 	return Null()
+}
+
+// asciiOrInvalid: every byte of s is ASCII or part of no valid UTF-8 sequence.
+func asciiOrInvalid(s string) bool {
+	for i := 0; i < len(s); {
+		r, n := utf8.DecodeRuneInString(s[i:])
+		if r >= 0x80 && !(r == utf8.RuneError && n <= 1) {
+			return false
+		}
+		i += n
+	}
+	return true
 }
